@@ -19,12 +19,27 @@ CONSTANTS
   MaxIssued,    \* bound on the total issued per batch
   Genesis,      \* name of the initial state
   UnitN, UnitD, \* one abstract credit unit = UnitN/UnitD credits
-  Asks, Bids, MaxFees, Rates, CoinAmts, Denoms,
+  Asks, Bids, MaxFees, RateSel, CoinAmts, Denoms,
   ExpTicks,     \* expirations used by Sell / UpdateSellOrders
-  Crits,        \* date criteria used by basket messages
+  CritSel,      \* which date criteria basket messages use (cfg files cannot hold records)
   Signers,      \* who may appear as a signer (Users, or Users + gov)
+  Chains,       \* chain names used by bridge messages, e.g. {"polygon","Polygon","other"}
+  OriginIds,    \* origin transaction ids, e.g. {"x1","x2"}
+  FeeDenomsOffered, \* fee coins offered by CreateClass / BasketCreate
   MaxList,      \* 1 or 2: longest argument list in a message
   Depth         \* 0 = unbounded; otherwise a bound on the number of steps
+
+Crits ==
+  CASE CritSel = "all"  -> {NoCrit, [kind |-> "min", v |-> 7], [kind |-> "window", v |-> 3],
+                            [kind |-> "years", v |-> 1]}
+    [] CritSel = "min"  -> {NoCrit, [kind |-> "min", v |-> 5], [kind |-> "min", v |-> 7]}
+    [] OTHER            -> {NoCrit}
+
+Rates ==
+  CASE RateSel = "all"   -> {RateEmpty, RateZero, Rate(1, 20), Rate(1, 2), Rate(1, 1), Rate(3, 2)}
+    [] RateSel = "some"  -> {RateEmpty, Rate(1, 10), Rate(1, 2)}
+    [] RateSel = "valid" -> {RateEmpty, Rate(1, 20), Rate(1, 2), Rate(1, 1)}
+    [] OTHER             -> {RateEmpty}
 
 Seqs1(S) == {<<x>> : x \in S}
 Seqs12(S) == IF MaxList < 2 THEN Seqs1(S) ELSE Seqs1(S) \cup {<<x, y>> : x \in S, y \in S}
@@ -89,12 +104,42 @@ BasketGenesis ==
      !.bclasses = {[bid |-> 1, cid |-> "C01"]},
      !.seq     = [@ EXCEPT !.batch = 2, !.basket = 1]]
 
+\* the same chain later: the basket already holds credits of both batches (the
+\* older batch with the smaller amount) and a1, a2 hold its tokens
+Basket2Genesis ==
+  [BasketGenesis EXCEPT
+     !.bal     = {[a |-> "a1", bk |-> 1, t |-> 1, r |-> 0, e |-> 0],
+                  [a |-> "a1", bk |-> 2, t |-> 1, r |-> 0, e |-> 0],
+                  [a |-> "a2", bk |-> 1, t |-> 0, r |-> 0, e |-> 0]},
+     !.bbal    = {[bid |-> 1, denom |-> BatchDenomOf("C01-001", 7, 8, 1), amt |-> 2, start |-> 7],
+                  [bid |-> 1, denom |-> BatchDenomOf("C01-001", 3, 8, 2), amt |-> 1, start |-> 3]},
+     !.coins   = @ \cup {[a |-> "a1", d |-> BasketDenomOf("C", "NCT"), n |-> 2],
+                          [a |-> "a2", d |-> BasketDenomOf("C", "NCT"), n |-> 1]},
+     !.csupply = @ \cup {[d |-> BasketDenomOf("C", "NCT"), n |-> 3]}]
+
+\* bridge family: polygon is an allowed chain, the batch is bound to contract k1
+BridgeGenesis ==
+  [BatchGenesis EXCEPT
+     !.chains    = {"polygon"},
+     !.contracts = {[bk |-> 1, ck |-> 1, contract |-> "k1"]},
+     !.origintx  = {[ck |-> 1, id |-> "x1", src |-> "polygon"]}]
+
+\* params family: a class fee and a basket fee are set, the allowlist is off
+FeeGenesis ==
+  [BatchGenesis EXCEPT
+     !.classfee  = SomeCoin("uregen", 2),
+     !.basketfee = SomeCoin("uregen", 3),
+     !.denoms    = @ \cup {[bank |-> "uatom", display |-> "atom", exp |-> 6]}]
+
 GenesisState ==
   CASE Genesis = "default" -> DefaultGenesis
     [] Genesis = "class"   -> ClassGenesis
     [] Genesis = "batch"   -> BatchGenesis
     [] Genesis = "market"  -> MarketGenesis
     [] Genesis = "basket"  -> BasketGenesis
+    [] Genesis = "basket2" -> Basket2Genesis
+    [] Genesis = "bridge"  -> BridgeGenesis
+    [] Genesis = "fee"     -> FeeGenesis
 
 \* ------------------------------------------------------------------ message domains
 BatchDenoms(s) == {b.denom : b \in s.batches} \cup {"C09-001-19700315-19700527-001"}
@@ -105,14 +150,17 @@ BasketDenoms(s) == {k.denom : k \in s.baskets} \cup {"eco.uC.XXX"}
 OrderIds(s)     == 1..MaxOrders
 OptExp(s)       == {NoTime} \cup {SomeTime(t) : t \in ExpTicks}
 
+OfferedFees == {NoCoin} \cup {SomeCoin(d, n) : d \in FeeDenomsOffered, n \in CoinAmts}
+
 Issuance == {[to |-> u, t |-> t, r |-> r] : u \in Users, t \in Amts, r \in Amts}
 NoOriginSet == {NoOrigin}
 
 Msgs(s, T) ==
   CASE T = "CreateClass" ->
          IF Cardinality(s.classes) >= MaxClasses THEN {} ELSE
-         {[type |-> T, admin |-> a, issuers |-> is, meta |-> "m0", ct |-> "C", fee |-> NoCoin]
-            : a \in Users, is \in Seqs12(Users)}
+         {[type |-> T, admin |-> a, issuers |-> is, meta |-> "m0", ct |-> ct, fee |-> f]
+            : a \in Users, is \in Seqs12(Users), ct \in {t.abbr : t \in s.ctypes} \cup {"ZZ"},
+              f \in OfferedFees}
     [] T = "CreateProject" ->
          IF Cardinality(s.projects) >= MaxProjects THEN {} ELSE
          {[type |-> T, admin |-> a, class_id |-> c, meta |-> "m0", jur |-> "US", ref |-> r]
@@ -125,8 +173,9 @@ Msgs(s, T) ==
               st0 \in StartTicks, o \in BOOLEAN}
     [] T = "MintBatchCredits" ->
          {[type |-> T, issuer |-> a, batch_denom |-> d, issuance |-> is,
-           origin |-> [set |-> TRUE, id |-> x, src |-> "polygon", contract |-> ""]]
-            : a \in Users, d \in BatchDenoms(s), is \in Seqs1(Issuance), x \in {"x1", "x2"}}
+           origin |-> [set |-> TRUE, id |-> x, src |-> src, contract |-> ""]]
+            : a \in Users, d \in BatchDenoms(s), is \in Seqs1(Issuance), x \in OriginIds,
+              src \in IF Chains = {} THEN {"polygon"} ELSE Chains}
     [] T = "SealBatch" ->
          {[type |-> T, issuer |-> a, batch_denom |-> d] : a \in Users, d \in BatchDenoms(s)}
     [] T = "UpdateBatchMetadata" ->
@@ -145,6 +194,64 @@ Msgs(s, T) ==
          {[type |-> T, owner |-> a, credits |-> cs]
             : a \in Users,
               cs \in Seqs12({[denom |-> d, amt |-> n] : d \in BatchDenoms(s), n \in Amts})}
+    [] T = "UpdateClassAdmin" ->
+         {[type |-> T, admin |-> a, class_id |-> c, new_admin |-> b]
+            : a \in Users, c \in ClassIds(s), b \in Users}
+    [] T = "UpdateClassIssuers" ->
+         {[type |-> T, admin |-> a, class_id |-> c, add |-> ad, remove |-> rm]
+            : a \in Users, c \in ClassIds(s),
+              ad \in {<<>>} \cup Seqs1(Users), rm \in {<<>>} \cup Seqs1(Users)}
+    [] T = "UpdateClassMetadata" ->
+         {[type |-> T, admin |-> a, class_id |-> c, meta |-> "m1"] : a \in Users, c \in ClassIds(s)}
+    [] T = "UpdateProjectAdmin" ->
+         {[type |-> T, admin |-> a, project_id |-> p, new_admin |-> b]
+            : a \in Users, p \in ProjectIds(s), b \in Users}
+    [] T = "UpdateProjectMetadata" ->
+         {[type |-> T, admin |-> a, project_id |-> p, meta |-> "m1"] : a \in Users, p \in ProjectIds(s)}
+    [] T = "AddCreditType" ->
+         {[type |-> T, authority |-> a, abbr |-> ab, name |-> nm, unit |-> "ton"]
+            : a \in Signers, ab \in {"C", "BIO"}, nm \in {"carbon", "biodiversity"}}
+    [] T = "AddClassCreator" ->
+         {[type |-> T, authority |-> a, creator |-> u] : a \in Signers, u \in Users}
+    [] T = "RemoveClassCreator" ->
+         {[type |-> T, authority |-> a, creator |-> u] : a \in Signers, u \in Users}
+    [] T = "SetClassCreatorAllowlist" ->
+         {[type |-> T, authority |-> a, enabled |-> e] : a \in Signers, e \in BOOLEAN}
+    [] T = "UpdateClassFee" ->
+         {[type |-> T, authority |-> a, fee |-> f]
+            : a \in Signers, f \in {NoCoin} \cup {SomeCoin(d, n) : d \in Denoms, n \in {0} \cup CoinAmts}}
+    [] T = "UpdateBasketFee" ->
+         {[type |-> T, authority |-> a, fee |-> f]
+            : a \in Signers, f \in {NoCoin} \cup {SomeCoin(d, n) : d \in Denoms, n \in {0} \cup CoinAmts}}
+    [] T = "AddAllowedBridgeChain" ->
+         {[type |-> T, authority |-> a, chain |-> c] : a \in Signers, c \in Chains}
+    [] T = "RemoveAllowedBridgeChain" ->
+         {[type |-> T, authority |-> a, chain |-> c] : a \in Signers, c \in Chains}
+    [] T = "BurnRegen" ->
+         {[type |-> T, burner |-> a, amt |-> n] : a \in Users, n \in {0} \cup CoinAmts}
+    [] T = "Unimplemented" ->
+         {[type |-> T, signer |-> a, which |-> w]
+            : a \in Signers, w \in {"CreateUnregisteredProject", "CreateOrUpdateApplication",
+                                     "UpdateProjectEnrollment", "UpdateProjectFee"}}
+    [] T = "Bridge" ->
+         {[type |-> T, owner |-> a, target |-> c, credits |-> cs]
+            : a \in Users, c \in Chains,
+              cs \in Seqs12({[denom |-> d, amt |-> n] : d \in BatchDenoms(s), n \in Amts})}
+    [] T = "BridgeReceive" ->
+         IF Cardinality(s.batches) >= MaxBatches + 1 THEN {} ELSE
+         {[type |-> T, issuer |-> a, class_id |-> c, ref |-> rf, pjur |-> "US", pmeta |-> "m0",
+           to |-> u, amt |-> n, start |-> 7, end |-> 8, bmeta |-> "m0",
+           origin |-> [set |-> TRUE, id |-> x, src |-> src, contract |-> k]]
+            : a \in Users, c \in ClassIds(s), rf \in {"r1", "r2"}, u \in Users, n \in Amts \ {0},
+              x \in OriginIds, src \in Chains, k \in {"k1", "k2"}}
+    [] T = "CreateBatchO" ->   \* CreateBatch with an origin tx (bridge family)
+         IF Cardinality(s.batches) >= MaxBatches THEN {} ELSE
+         {[type |-> "CreateBatch", issuer |-> a, project_id |-> p,
+           issuance |-> <<[to |-> a, t |-> 1, r |-> 0]>>, meta |-> "m0",
+           start |-> 7, end |-> 8, open |-> o,
+           origin |-> [set |-> TRUE, id |-> x, src |-> src, contract |-> k]]
+            : a \in Users, p \in ProjectIds(s), o \in BOOLEAN,
+              x \in OriginIds, src \in Chains, k \in {"", "k1", "k2"}}
     [] T = "Sell" ->
          IF Cardinality(s.orders) >= MaxOrders \/ s.seq.order >= MaxOrders THEN {} ELSE
          {[type |-> T, seller |-> a, orders |-> os]
@@ -188,9 +295,9 @@ Msgs(s, T) ==
     [] T = "BasketCreate" ->
          IF Cardinality(s.baskets) >= MaxBaskets THEN {} ELSE
          {[type |-> T, curator |-> a, name |-> nm, ct |-> "C", classes |-> cs, dar |-> dr,
-           crit |-> cr, fee |-> NoCoin]
+           crit |-> cr, fee |-> f]
             : a \in Users, nm \in {"NCT", "BCT"}, cs \in Seqs1(ClassIds(s)), dr \in BOOLEAN,
-              cr \in Crits}
+              cr \in Crits, f \in OfferedFees}
     [] T = "Put" ->
          {[type |-> T, owner |-> a, basket_denom |-> k, credits |-> cs]
             : a \in Users, k \in BasketDenoms(s),
@@ -226,15 +333,44 @@ Spec == Init /\ [][Next]_<<vars, depth>>
 \* Behaviour generation (tlc -simulate): one message type per step, chosen at
 \* random, and a bias towards messages the specification accepts -- otherwise
 \* failing messages, which are the majority of every domain, crowd out the rest.
-GenNext ==
-  /\ depth' = depth + 1
-  /\ \E T \in RandomSubset(1, {X \in MsgTypes : Msgs(st, X) # {}}) :
-       LET ms   == Msgs(st, T)
-           good == {m \in ms : \E r \in ApplySet(st, m) : r.ok /\ IssuedBounded(r.s)}
-           pick == IF good # {} /\ RandomElement(1..4) > 1 THEN good ELSE ms
-       IN \E m \in RandomSubset(1, pick) : Step(m)
-
 \* exhaustive runs look at the chain state and the ghost only
 View == <<st, gh, depth>>
+
+\* message types that move credits or coins are drawn four times as often as
+\* administrative ones
+Weight(T) == IF T \in {"Sell", "BuyDirect", "UpdateSellOrders", "Put", "Take", "Send",
+                       "CreateBatch", "BridgeReceive", "Bridge", "BasketCreate"} THEN 4
+             ELSE IF T \in {"CancelSellOrder", "Retire", "Cancel", "MintBatchCredits",
+                            "BeginBlock", "BankSend", "CreateClass", "CreateProject"} THEN 2
+             ELSE 1
+
+\* the list-valued argument of a message type ("" = none)
+ListField(T) ==
+  CASE T \in {"Send", "Retire", "Cancel", "Put", "Bridge"} -> "credits"
+    [] T \in {"Sell", "BuyDirect"} -> "orders"
+    [] T = "UpdateSellOrders" -> "updates"
+    [] T \in {"CreateBatch", "MintBatchCredits"} -> "issuance"
+    [] OTHER -> ""
+
+\* Generation configurations use MaxList = 1, so Msgs(st, T) is the FULL domain
+\* of single-entry messages; longer lists are built here by concatenating the
+\* lists of two or three drawn messages (duplicates and repeated targets included).
+GenNext ==
+  /\ depth' = depth + 1
+  /\ LET avail == {X \in MsgTypes : Msgs(st, X) # {}}
+         bag   == UNION {{<<X, i>> : i \in 1..Weight(X)} : X \in avail}
+     IN \E c \in RandomSubset(1, bag) :
+       LET T    == c[1]
+           ms   == Msgs(st, T)
+           good == {m \in ms : \E r \in ApplySet(st, m) : r.ok /\ IssuedBounded(r.s)}
+           pick == IF good # {} /\ RandomElement(1..8) > 1 THEN good ELSE ms
+           lf   == ListField(T)
+           more == IF lf = "" THEN 0 ELSE <<0, 0, 0, 1, 1, 2>>[RandomElement(1..6)]
+       IN \E m \in RandomSubset(1, pick) :
+          \E m2 \in RandomSubset(1, IF good # {} /\ RandomElement(1..3) > 1 THEN good ELSE ms) :
+          \E m3 \in RandomSubset(1, ms) :
+            Step(IF more = 0 THEN m
+                 ELSE IF more = 1 THEN [m EXCEPT ![lf] = @ \o m2[lf]]
+                 ELSE [m EXCEPT ![lf] = @ \o m2[lf] \o m3[lf]])
 
 =============================================================================
